@@ -232,6 +232,7 @@ def run(ctx):
         raise AnalysisBroken("only %d emitted reads of generated-code scratch slots found in orcprogram-x86.c" % n8)
 
     d9_param_staging(db, rep)
+    d11_stride_sign(db, rep)
 
     # D10: the region counters the split emitters compute tile ex->n on every path of the emitted code
     import emitsym
@@ -679,7 +680,7 @@ def d34(db, rep):
     rep.floor("D4-EXEC-SLOTS", 20)
 
 
-def d9_param_staging(db, rep):
+def d9_param_staging(db, rep, rule="D9-PARAM-STAGING"):
     """D9: the emulator stages a 4-byte parameter as a 64-bit value that the offset / resampling loads use as a SIGNED element
     index (array[i + offset]).  A negative parameter must therefore arrive sign-extended: on its way from the executor's int
     slot to the 64-bit argument of the staging call the value must not pass through an unsigned type narrower than 64 bits
@@ -697,6 +698,18 @@ def d9_param_staging(db, rep):
         top = strip_casts(v)
         if top is not None and top.k == "BinaryOperator" and top.op == "|":
             continue                                    # two halves assembled: widening rule
+        if top is not None and top.k == "DeclRefExpr" and top.get("dk") == "local":
+            # the value is prepared in a local: judge its definition, unless an OR of the high half is applied on every path
+            from flow import reaching_defs
+            ors = [x for x in ee.walk() if x.k == "CompoundAssignOperator" and x.op == "|=" and access_path(x.c[0]) == top.name]
+            if any(ee.dominates(o, c) for o in ors):
+                continue
+            ds = reaching_defs(ee, top.name, c)
+            if len(ds) == 1:
+                v = ds[0].c[1] if ds[0].k == "BinaryOperator" else ds[0].c[0]
+                top = strip_casts(v)
+                if top is not None and top.k == "BinaryOperator" and top.op == "|":
+                    continue
         src = [x for x in v.walk() if x.k == "ArraySubscriptExpr" and (access_path(x.c[0]) or "").endswith("->params")]
         if not src:
             continue
@@ -711,9 +724,55 @@ def d9_param_staging(db, rep):
             if x is v:
                 break
             x = x.parent
-        rep.check(bad is None, "D9-PARAM-STAGING", where(ee), "load_constant(%s)" % unparse(v)[:50],
+        rep.check(bad is None, rule, where(ee), "load_constant(%s)" % unparse(v)[:50],
                   "the int parameter slot reaches the 64-bit staging value by sign extension",
                   "orc_executor_emulate stages a 4-byte parameter through `(%s)`: a negative run-time offset or start position is zero-extended to "
                   "about +2^32 and loadoffX / ldresnearX / ldreslinX, which use it as a signed element index, read gigabytes past the source array" % bad, line=c.line)
     if n < 1:
         raise AnalysisBroken("orc_executor_emulate: staging of 4-byte parameters (load_constant (.., 8, ex->params[..])) not found")
+
+
+def d11_stride_sign(db, rep, rule="D11-STRIDE-SIGN"):
+    """D11: a 2-D stride is a signed int in ex->params[i]; generated code adds it to a pointer.  Where that add is pointer-sized
+    on a 64-bit target, the stride must have been loaded with sign extension: a plain 4-byte load (which zero-extends on
+    x86-64) may only be emitted on paths where the target is known to be 32-bit."""
+    from flow import Facts
+    n = 0
+    for f in db.tu("orcprogram-x86").main_functions():
+        loads, adds = [], []
+        for c in f.calls():
+            if not c.name or "memoffset" not in c.name:
+                continue
+            a = c.args()
+            opath = next((z.get("opath") for x in a for z in x.walk() if z.k == "OffsetOfExpr"), None)
+            if opath is None:
+                continue
+            rows = [x.name for x in a[1].walk() if x.k == "DeclRefExpr" and (x.name or "").startswith("ORC_X86_")] if len(a) > 1 else []
+            if opath.startswith("params") and (c.name == "orc_x86_emit_mov_memoffset_reg" or c.name == "orc_x86_emit_cpuinsn_memoffset_reg"):
+                size = strip_casts(a[1]).v if c.name == "orc_x86_emit_mov_memoffset_reg" else strip_casts(a[2]).v
+                signext = any("movslq" in r or "movsx" in r for r in rows)
+                loads.append((c, unparse(strip_casts(a[-1])), size, signext))
+            elif opath.startswith("arrays") and any(r.startswith("ORC_X86_add") for r in rows):
+                sz = a[2] if c.name.startswith("orc_x86_emit_cpuinsn") else a[1]
+                may8 = strip_casts(sz).v == 8 or any(strip_casts(y) is not None and strip_casts(y).v == 8 for y in sz.walk())
+                reg = [unparse(strip_casts(x)) for x in a[3:]]
+                adds.append((c, reg, may8))
+        if not loads or not adds:
+            continue
+        fc = Facts(f)
+        for c, reg, size, signext in loads:
+            if not any(reg in regs and may8 for _, regs, may8 in adds):
+                continue
+            n += 1
+            rep.saw(f)
+            if signext:
+                rep.ok(rule, where(f), "load:%s@%s" % (reg, c.line), "the stride is loaded with sign extension")
+                continue
+            only32 = any(cc[0] != "switch" and cc[1] is False and (access_path(strip_casts(cc[0])) or "").endswith("is_64bit") for cc in fc.conds(c))
+            rep.check(only32, rule, where(f), "load:%s@%s" % (reg, c.line),
+                      "the zero-extending %s-byte load of the stride is emitted for 32-bit targets only" % size,
+                      "%s loads the int stride ex->params[i] into %s with a plain %s-byte mov and then adds the whole register to the 8-byte pointer in "
+                      "ex->arrays[i]: on x86-64 the load zero-extends, so a negative stride moves the pointer forward by almost 4 GiB after the first row" %
+                      (f.name, reg, size), line=c.line)
+    if n < 1:
+        raise AnalysisBroken("no stride load feeding a pointer-sized add found in orcprogram-x86.c")
